@@ -72,21 +72,10 @@ func (v *ScriptView) GenerateDatabaseScriptCreate(tableMap map[string]*sysl.Type
 	}
 	sort.Ints(depthsFound)
 	for _, depth := range depthsFound {
-		tableNames := completedTableDepthMap[depth]
-		var lineNumbers []int32
-		var entityNames []string
-		lineNumberMap := map[int32]string{}
-		for _, tableName := range tableNames {
-			table := tableMap[tableName]
-			lineNumber := table.GetSourceContext().GetStart().GetLine() //nolint:staticcheck
-			lineNumberMap[lineNumber] = tableName
-			lineNumbers = append(lineNumbers, lineNumber)
-		}
-		sort.Slice(lineNumbers, func(i, j int) bool { return lineNumbers[i] < lineNumbers[j] })
-		for _, lineNo := range lineNumbers {
-			entityName := lineNumberMap[lineNo]
-			entityNames = append(entityNames, entityName)
-		}
+		entityNames := append([]string(nil), completedTableDepthMap[depth]...)
+		sortNamesByLine(entityNames, func(tableName string) int32 {
+			return tableMap[tableName].GetSourceContext().GetStart().GetLine() //nolint:staticcheck
+		})
 		for _, entityName := range entityNames {
 			entityType := tableMap[entityName]
 			if relEntity := entityType.GetRelation(); relEntity != nil {
